@@ -848,11 +848,13 @@ EGLPNUM_TYPENAME_QSLIB_INTERFACE EGLPNUM_TYPENAME_QSdata *EGLPNUM_TYPENAME_QScop
 
 	if (p->qslp->intmarker != 0)
 	{
-		ILL_SAFE_MALLOC (p2->qslp->intmarker, p->qslp->nstruct, char);
+		/* as long as the other per-column arrays of the copy: ILLlib_addcol
+		 * writes the mark of a new column without growing this array */
+		ILL_SAFE_MALLOC (p2->qslp->intmarker, p2->qslp->structsize, char);
 
-		for (j = 0; j < p->qslp->nstruct; j++)
+		for (j = 0; j < p2->qslp->structsize; j++)
 		{
-			p2->qslp->intmarker[j] = p->qslp->intmarker[j];
+			p2->qslp->intmarker[j] = (j < p->qslp->nstruct) ? p->qslp->intmarker[j] : (char) 0;
 		}
 	}
 
